@@ -504,6 +504,56 @@ struct ApiWorld : World {
                             L(lattice_hyp(dag, best));
                         int32 post = L(lattice_posterior(dag, ascale));
                         out.events.i64(post);
+                        // node and link iterators (run dry or freed early), the accessors on what they yield, the
+                        // segmentation of the best path (finished or abandoned); once now and once after pruning
+                        auto walk = [&](int budget) {
+                            int seen = 0;
+                            for (latnode_iter_t *ni = L(ps_latnode_iter(dag)); ni; ni = L(ps_latnode_iter_next(ni))) {
+                                latnode_t *nd = L(ps_latnode_iter_node(ni));
+                                int16 fef = 0, lef = 0;
+                                L(latnode_times(nd, &fef, &lef));
+                                L(ps_latnode_word(dag, nd));
+                                L(ps_latnode_baseword(dag, nd));
+                                latlink_t *bl = nullptr;
+                                L(ps_latnode_prob(dag, nd, &bl));
+                                int k2 = 0;
+                                for (latlink_iter_t *li = (seen & 1) ? L(ps_latnode_exits(nd)) : L(ps_latnode_entries(nd)); li; li = L(ps_latlink_iter_next(li))) {
+                                    latlink_t *lk = L(ps_latlink_iter_link(li));
+                                    int16 sf = 0;
+                                    latnode_t *src = nullptr;
+                                    L(latlink_times(lk, &sf));
+                                    L(ps_latlink_nodes(lk, &src));
+                                    L(ps_latlink_word(dag, lk));
+                                    L(ps_latlink_baseword(dag, lk));
+                                    L(ps_latlink_pred(lk));
+                                    int32 as = 0;
+                                    L(ps_latlink_prob(dag, lk, &as));
+                                    if (++k2 >= 2 && (seen % 3) == 0) { // abandoned: the caller frees it
+                                        LV(ps_latlink_iter_free(li));
+                                        break;
+                                    }
+                                }
+                                if (++seen >= budget) {
+                                    LV(ps_latnode_iter_free(ni));
+                                    break;
+                                }
+                            }
+                            out.probes["api.lattice_nodes_walked"] += seen;
+                        };
+                        walk(kk % 2 ? 1000000 : 5);
+                        if (best) {
+                            seg_iter_t *sg = L(lattice_seg_iter(dag, best));
+                            int ns = 0;
+                            while (sg) {
+                                L(seg_iter_word(sg));
+                                if (++ns == 2 && (kk & 2)) {
+                                    LV(seg_iter_free(sg));
+                                    break;
+                                }
+                                sg = L(seg_iter_next(sg));
+                            }
+                        }
+                        lattice_t *mine = (kk & 4) ? L(lattice_retain(dag)) : nullptr;
                         static const int32 beams[] = { -200000, -20000, -5000, -500, -1, 0 };
                         int32 beam = beams[kk % 6];
                         int np = L(lattice_posterior_prune(dag, beam));
@@ -515,6 +565,9 @@ struct ApiWorld : World {
                         else
                             out.probes["api.lattice_no_path_after_prune"]++;
                         L(lattice_posterior(dag, ascale));
+                        walk(1000000);
+                        if (mine)
+                            L(lattice_free(mine));
                         hyp_iter_t *it = L(decoder_nbest(s.d));
                         for (int n = 0; it && n < 3; ++n) {
                             int32 sc;
